@@ -1,7 +1,28 @@
 """Exact polynomial normal form through sympy (second normaliser for algebraic certificates)."""
 from __future__ import annotations
 
+import contextlib
+import signal
+
 import z3
+
+
+class CertTimeout(BaseException):
+    """BaseException: sympy swallows Exception in places."""
+
+
+@contextlib.contextmanager
+def time_limit(seconds):
+    """sympy normalisation can blow up on a false identity: bound it (main thread only)."""
+    def handler(signum, frame):
+        raise CertTimeout()
+    old = signal.signal(signal.SIGALRM, handler)
+    signal.setitimer(signal.ITIMER_REAL, max(0.05, float(seconds)))
+    try:
+        yield
+    finally:
+        signal.setitimer(signal.ITIMER_REAL, 0)
+        signal.signal(signal.SIGALRM, old)
 
 
 def to_sympy(t, cache=None):
@@ -45,6 +66,76 @@ def to_sympy(t, cache=None):
     return rec(t)
 
 
-def is_zero_polynomial(t):
+def is_zero_polynomial(t, limit=15):
     import sympy as sp
-    return sp.expand(to_sympy(t)) == 0
+    try:
+        with time_limit(limit):
+            return sp.expand(to_sympy(t)) == 0
+    except CertTimeout:
+        return False
+
+
+def to_sympy_rational(t):
+    """Like to_sympy but keeps divisions and uninterpreted function applications (arguments are
+    normalised with cancel(), so syntactically different but equal arguments give equal atoms).
+    Returns (expr, denominators) where denominators are the z3 terms divided by."""
+    import sympy as sp
+    cache = {}
+    dens = []
+
+    def rec(e):
+        k = e.get_id()
+        if k in cache:
+            return cache[k]
+        if z3.is_int_value(e):
+            r = sp.Integer(e.as_long())
+        elif z3.is_rational_value(e):
+            r = sp.Rational(e.numerator_as_long(), e.denominator_as_long())
+        elif z3.is_app(e):
+            d = e.decl().kind()
+            ch = e.children()
+            if d == z3.Z3_OP_ADD:
+                r = sp.Add(*[rec(c) for c in ch])
+            elif d == z3.Z3_OP_MUL:
+                r = sp.Mul(*[rec(c) for c in ch])
+            elif d == z3.Z3_OP_SUB:
+                r = rec(ch[0]) - sp.Add(*[rec(c) for c in ch[1:]])
+            elif d == z3.Z3_OP_UMINUS:
+                r = -rec(ch[0])
+            elif d == z3.Z3_OP_POWER and (z3.is_int_value(ch[1]) or (z3.is_rational_value(ch[1]) and ch[1].denominator_as_long() == 1)):
+                r = rec(ch[0]) ** int(ch[1].numerator_as_long() if z3.is_rational_value(ch[1]) else ch[1].as_long())
+            elif d == z3.Z3_OP_TO_REAL:
+                r = rec(ch[0])
+            elif d == z3.Z3_OP_DIV:
+                if not (z3.is_rational_value(ch[1]) or z3.is_int_value(ch[1])):
+                    dens.append(ch[1])
+                r = rec(ch[0]) / rec(ch[1])
+            elif d == z3.Z3_OP_UNINTERPRETED and e.num_args() == 1 and e.decl().name() == "sqrt":
+                # sqrt(x)**2 == x for x >= 0 (the domain side condition is a separate noraise obligation)
+                r = sp.sqrt(sp.cancel(rec(ch[0])))
+            elif d == z3.Z3_OP_UNINTERPRETED and e.num_args() > 0:
+                r = sp.Function(e.decl().name())(*[sp.cancel(rec(c)) for c in ch])
+            elif d == z3.Z3_OP_UNINTERPRETED:
+                r = sp.Symbol(str(e))
+            else:
+                r = sp.Symbol("t%d" % k)
+        else:
+            r = sp.Symbol("t%d" % k)
+        cache[k] = r
+        return r
+
+    return rec(t), dens
+
+
+def rational_is_zero(t, limit=15):
+    """(is the rational expression identically zero?, symbolic denominators).  Time-bounded."""
+    import sympy as sp
+    try:
+        with time_limit(limit):
+            e, dens = to_sympy_rational(t)
+            r = sp.cancel(sp.together(e))
+            if r != 0:
+                r = sp.cancel(sp.together(sp.expand(r)))
+            return r == 0, dens
+    except CertTimeout:
+        return False, []
